@@ -372,8 +372,8 @@ package updown
 //@   before return#7: do gErrSeen = true
 //@   before return#6: assert [c18.error.first] len(recvd(cErr)) == 1 && err == recvd(cErr)[0]
 //@   before return#7: assert [c18.error.first] len(recvd(cErr)) == 1 && err == recvd(cErr)[0]
-//@   after call:writeUpdownTable#1: do gWriteFailed = err != nil
-//@   after call:writeUpDownCatchment#1: do gWriteFailed = err != nil
+//@   after call:writeUpdownTable#1: do gWriteFailed = ret() != nil
+//@   after call:writeUpDownCatchment#1: do gWriteFailed = ret() != nil
 //@   before return#9: assert [c18.nil.means.clean] len(recvd(cErr)) == 0 && len(recvd(cResults)) == nQ
 //@   ensures [c18.error.returned] implies(gErrSeen, result != nil)
 //@   ensures [c19.writer.error.returned] implies(gWriteFailed, result != nil)
